@@ -31,7 +31,8 @@ def run(env, rep):
         "equalities the specification requires between the new header and the stored previous header of that chunk stream (or on "
         "continuation chunks); R4: the 24-bit field is capped at 0xFFFFFF and the extended field carries the uncapped value exactly "
         "when the field is >= 0xFFFFFF; R5: max_chunk_size is stored only after the SetChunkSize message carrying the same value was "
-        "serialized under the old size.  Not decided: parsing by an independent decoder, per-chunk payload <= chunk size.")
+        "serialized under the old size; R7 (= the writer clauses of C01 R3): the continuation chunks of a message repeat the timestamp field "
+        "(and therefore the extended timestamp) of the chunk that started it, and the header remembered per chunk stream is the one that was written.  Not decided: parsing by an independent decoder, per-chunk payload <= chunk size.")
     spec = chunk.load_spec()
     m = chunk.ChunkModel(env, rep, "C07.anchors")
     if not m.ok:
@@ -235,3 +236,8 @@ def run(env, rep):
             n6 += 1
             rep.ok("C07.R6", "slices-from-chunks", "the payload is split by <[T]>::chunks, which yields only non-empty slices", o.span)
     rep.floor("C07.R6", "payload slices taken by the splitting construct", n6, 1)
+    # ------------------------------------------------------------------ R7 continuation chunks repeat the first chunk's timestamp field
+    from ..framework import PrefixReport, wants
+    if wants(rep, "C07.R7"):
+        from . import C01
+        C01.run(env, PrefixReport(rep, "C01.R3", "C07.R7", only=("C01.R3",), keys=lambda k: not str(k).startswith("reader:")))
